@@ -185,14 +185,13 @@ func init() {
 					store = &ss
 				}
 			}
+			// the announcement may live in a helper that storeTask calls after the store ("afterStore": refactoring C06-R14)
+			headsDeep := p.deepSites(st, func(s Site) bool {
+				return strings.HasSuffix(s.CalleeName(), ".Send") && len(s.Args()) > 0 && strings.HasSuffix(term(s.Args()[0]), "s.newHeads")
+			}, 2)
 			var heads []Site
-			for _, s := range sitesOf(st) {
-				if strings.HasSuffix(s.CalleeName(), ".Send") && len(s.Args()) > 0 {
-					rt := term(s.Args()[0])
-					if strings.HasSuffix(rt, "s.newHeads") {
-						heads = append(heads, s)
-					}
-				}
+			for _, ds := range headsDeep {
+				heads = append(heads, ds.Site)
 			}
 			// the reorg notification may live in a helper of storeTask (extract-function refactoring)
 			reorgDeep := p.deepSites(st, func(s Site) bool {
@@ -204,9 +203,11 @@ func init() {
 				c.viol("notify", "storeTask: newHeads.Send", p.Pos(fnPos(st)), fmt.Sprintf("expected exactly one newHeads.Send after Blockchain.Store (found %d)", len(heads)))
 			} else {
 				h := heads[0]
-				d := p.mustHoldAt(h.Instr)
+				hd := headsDeep[0]
+				hOuter := hd.outer() // the instruction of storeTask that stands for the announcement
+				d := p.mustHoldDeep(hd)
 				ok1, miss := everyDisjunctHas(d, []string{"^!", ".Store(", "!= nil"})
-				c.check(ok1 && dominatesInstr(store.Instr, h.Instr), "notify", "storeTask: newHeads.Send only after Store succeeded", p.Pos(h.Pos()), "on the err == nil branch of Store", "a new head can be announced although Store failed or did not run: "+miss)
+				c.check(ok1 && dominatesInstr(store.Instr, hOuter), "notify", "storeTask: newHeads.Send only after Store succeeded", p.Pos(h.Pos()), "on the err == nil branch of Store", "a new head can be announced although Store failed or did not run: "+miss)
 				// no return between success and Send: from the success successor every path to return passes Send
 				var succ ssa.Instruction
 				if v, ok := store.Instr.(ssa.Value); ok {
@@ -232,9 +233,18 @@ func init() {
 						}
 					}
 				}
-				okp := succ != nil && (succ.Block() == h.Block() || everyPathPasses(st, succ, h.Instr) || succ.Block().Dominates(h.Block()) && everyPathPassesFromBlock(succ.Block(), h.Block()))
+				okp := succ != nil && (succ.Block() == hOuter.Block() || everyPathPasses(st, succ, hOuter) || succ.Block().Dominates(hOuter.Block()) && everyPathPassesFromBlock(succ.Block(), hOuter.Block()))
+				if okp && len(hd.Chain) > 0 {
+					// inside the helper: every path from its entry to a return passes the Send
+					g := h.Instr.Parent()
+					okp = len(g.Blocks) > 0 && len(g.Blocks[0].Instrs) > 0 && (g.Blocks[0] == h.Block() || everyPathPassesFromBlock(g.Blocks[0], h.Block()))
+				}
 				c.check(okp, "notify", "storeTask: every stored block is announced", p.Pos(h.Pos()), "no return between Store success and newHeads.Send", "a path from the successful Store to a return skips newHeads.Send: a stored block would not be announced")
-				c.check(len(h.Args()) > 1 && term(h.Args()[1]) == "committedBlock.Block" && store != nil && term(store.Args()[1]) == "committedBlock.Block", "notify", "storeTask: announced block = stored block", p.Pos(h.Pos()), "same value", "the announced block is not the stored block")
+				announced := ""
+				if len(h.Args()) > 1 {
+					announced = substTermChain(term(h.Args()[1]), hd.Chain)
+				}
+				c.check(announced == "committedBlock.Block" && store != nil && term(store.Args()[1]) == "committedBlock.Block", "notify", "storeTask: announced block = stored block", p.Pos(h.Pos()), "same value", "the announced block is not the stored block")
 			}
 			for _, r := range reorgs {
 				d := p.mustHoldDeep(r)
